@@ -161,13 +161,19 @@ impl SodiumCtx {
         self.with_data(|data: &mut SodiumCtxData| {
             data.transaction_depth += 1;
         });
+        #[cfg(feature = "verif_hooks")]
+        crate::verif::sched_point("enter:after-inc");
     }
 
     pub fn leave_transaction(&self) {
+        #[cfg(feature = "verif_hooks")]
+        crate::verif::sched_point("leave:before-dec");
         let is_end_of_transaction = self.with_data(|data: &mut SodiumCtxData| {
             data.transaction_depth -= 1;
             data.transaction_depth == 0
         });
+        #[cfg(feature = "verif_hooks")]
+        crate::verif::sched_point("leave:after-dec");
         if is_end_of_transaction {
             self.end_of_transaction();
         }
@@ -235,6 +241,8 @@ impl SodiumCtx {
             data.transaction_depth += 1;
             data.allow_collect_cycles_counter += 1;
         });
+        #[cfg(feature = "verif_hooks")]
+        crate::verif::sched_point("eot:start");
         // pre eot
         {
             let pre_eot = self.with_data(|data: &mut SodiumCtxData| {
@@ -246,6 +254,8 @@ impl SodiumCtx {
                 k();
             }
         }
+        #[cfg(feature = "verif_hooks")]
+        crate::verif::sched_point("eot:after-pre-eot");
         //
         loop {
             let changed_nodes: Vec<Box<dyn IsNode>> = self.with_data(|data: &mut SodiumCtxData| {
@@ -253,6 +263,8 @@ impl SodiumCtx {
                 mem::swap(&mut changed_nodes, &mut data.changed_nodes);
                 changed_nodes
             });
+            #[cfg(feature = "verif_hooks")]
+            crate::verif::sched_point("eot:took-changed");
             if changed_nodes.is_empty() {
                 break;
             }
@@ -260,9 +272,13 @@ impl SodiumCtx {
                 self.update_node(node.node());
             }
         }
+        #[cfg(feature = "verif_hooks")]
+        crate::verif::sched_point("eot:drained");
         self.with_data(|data: &mut SodiumCtxData| {
             data.transaction_depth -= 1;
         });
+        #[cfg(feature = "verif_hooks")]
+        crate::verif::sched_point("eot:after-depth-dec");
         // pre_post
         {
             let pre_post = self.with_data(|data: &mut SodiumCtxData| {
@@ -274,6 +290,8 @@ impl SodiumCtx {
                 k();
             }
         }
+        #[cfg(feature = "verif_hooks")]
+        crate::verif::sched_point("eot:after-pre-post");
         // post
         {
             let post = self.with_data(|data: &mut SodiumCtxData| {
@@ -285,11 +303,15 @@ impl SodiumCtx {
                 k();
             }
         }
+        #[cfg(feature = "verif_hooks")]
+        crate::verif::sched_point("eot:after-post");
         let allow_collect_cycles = self.with_data(|data: &mut SodiumCtxData| {
             data.allow_collect_cycles_counter -= 1;
             data.allow_collect_cycles_counter == 0
         });
         if allow_collect_cycles {
+            #[cfg(feature = "verif_hooks")]
+            crate::verif::sched_point("eot:before-collect");
             // gc
             self.collect_cycles()
         }
